@@ -2,7 +2,6 @@ package main
 
 import (
 	"fmt"
-	"strings"
 	"time"
 
 	"github.com/0xReLogic/Helios/internal/config"
@@ -130,13 +129,3 @@ func doFault(sys *Sys, kind string, extraHdr [][2]string) faultResult {
 	return faultResult{Status: rs.Status, Err: rs.Err, Complete: rs.Complete, Dur: time.Duration(rs.DurNS), Body: trunc(string(rs.Body), 80)}
 }
 
-// isBreakerReject / isLimiterReject / isNoBackend classify Helios's own answers.
-func isBreakerReject(r faultResult) bool {
-	return (r.Status == 503 && strings.Contains(r.Body, "circuit breaker is open")) || (r.Status == 429 && strings.Contains(r.Body, "circuit breaker half-open"))
-}
-func isLimiterReject(r faultResult) bool {
-	return r.Status == 429 && strings.Contains(r.Body, "Rate limit exceeded")
-}
-func isNoBackend(r faultResult) bool {
-	return r.Status == 503 && strings.Contains(r.Body, "No healthy backend")
-}
